@@ -899,14 +899,16 @@ class Enum(Generic, PrimitiveType):
 
   def __init__(
       self,
-      default: typing.Any,
-      values: typing.List[typing.Any],
+      default: typing.Any = MISSING_VALUE,
+      values: typing.Optional[typing.List[typing.Any]] = None,
       frozen: bool = False,
   ):
     """Constructor.
 
     Args:
-      default: default value for this spec.
+      default: default value for this spec. If `MISSING_VALUE`, the spec has no
+        default (this is how a default-less Enum is loaded from JSON, where
+        absent fields are not emitted).
       values: all acceptable values.
       frozen: If True, values other than the default value is not accceptable.
     """
